@@ -4,9 +4,10 @@ import storecheck
 PLAN = {
     "api": True,
     "mc": [("StoreMC_acct.cfg", False), ("StoreMC_exp_small.cfg", False), ("StoreMC_exp.cfg", True)],
-    "sims": [("StoreSim_acct.cfg", 250, 2000, 61)],
-    "drivers": [("TestVerif_StoreFree", 6, 40, "store_free.ndjson", None)],
+    "sims": [("StoreSim_acct.cfg", 250, 2000, 61), ("StoreSim_seq.cfg", 150, 1200, 91)],
+    "drivers": [("TestVerif_StoreFree", 6, 40, "store_free.ndjson", None), ("TestVerif_StoreTime", 40, 400, "store_time.ndjson", None)],
     "assumptions": [
+        "true reason: EXPIRED only for an entry whose deadline (as the observer computes it from the calls) has passed, EVICTED only while the upper bound of what the policy may count exceeds MaxSize, REMOVED only after a Delete of that entry; sequential TTL programs and the time driver supply deadlines on all wheel levels",
         "exhaustive only for the small constants of spec/StoreMC_acct.cfg and StoreMC_exp*.cfg; victim choice and wheel visits are nondeterministic in Store.tla (over-approximation of W-TinyLFU and of the timer wheel)",
         "exact accounting is checked at quiescent snapshots (after Wait, no call in flight) of the default configuration (entry pool off)",
     ],
